@@ -146,6 +146,78 @@ func (m *Model) RunKinds(s *Sink, rule string) {
 			s.Violation(rule, key, m.Pos(fn.Pos()), "NativeToObject has no case for reflect kind %s: %ss in the data are reported as unsupported", name, strings.ToLower(name))
 		}
 	}
+	// only nil itself and a nil pointer are nil in a template: every `&Nil{}` the converter (or a private helper of it)
+	// returns lies under `val == nil` or under the Pointer kind — a nil slice is an empty array and a nil map an empty
+	// object (truthy, iterable, with @else), like the empty literals
+	{
+		kindIs := func(f Fact, want int64) bool {
+			bo, ok := f.Cond.(*ssa.BinOp)
+			if !ok || (bo.Op != token.EQL && bo.Op != token.NEQ) || (bo.Op == token.EQL) != f.Holds {
+				return false
+			}
+			// the kind of a reflect value / type of anything, compared with the wanted kind
+			for _, pr := range [][2]ssa.Value{{bo.X, bo.Y}, {bo.Y, bo.X}} {
+				k, isK := pr[1].(*ssa.Const)
+				c, isC := pr[0].(*ssa.Call)
+				if !isK || !isC || k.Value == nil || k.Value.Kind() != constant.Int || k.Int64() != want {
+					continue
+				}
+				if c.Call.IsInvoke() && c.Call.Method.Name() == "Kind" {
+					return true
+				}
+				if sc := c.Call.StaticCallee(); sc != nil && fnFullName(sc) == "(reflect.Value).Kind" {
+					return true
+				}
+			}
+			return false
+		}
+		nilT := m.namedType("object", "Nil")
+		badAt := ""
+		nNil := 0
+		for _, hf := range m.helpersOf(fn) {
+			for _, b := range hf.Blocks {
+				ret, isRet := b.Instrs[len(b.Instrs)-1].(*ssa.Return)
+				if !isRet || len(ret.Results) == 0 {
+					continue
+				}
+				al, isAl := stripIface(ret.Results[0]).(*ssa.Alloc)
+				if !isAl || nilT == nil {
+					continue
+				}
+				if pn := ptrNamed(al.Type()); pn == nil || !types.Identical(pn, nilT) {
+					continue
+				}
+				nNil++
+				guard := func(gb *ssa.BasicBlock) bool {
+					for _, f := range expandFacts(factsAt(gb)) {
+						if bo, isBo := f.Cond.(*ssa.BinOp); isBo && bo.Op == token.EQL && f.Holds && isNilConst(bo.Y) {
+							if _, isPar := bo.X.(*ssa.Parameter); isPar {
+								return true
+							}
+						}
+						if kindIs(f, 22) {
+							return true
+						}
+					}
+					return false
+				}
+				// here, or — for a helper that handles one kind — at every call of the helper
+				ok, _ := m.guardedLifting(ret, guard, 0)
+				if !ok && badAt == "" {
+					badAt = m.InstrPos(ret)
+				}
+			}
+		}
+		key := fk + "|only nil and nil pointers become nil"
+		switch {
+		case nNil == 0:
+			s.Undecided(rule, key, m.Pos(fn.Pos()), "no return of an *object.Nil found in NativeToObject")
+		case badAt != "":
+			s.Violation(rule, key, badAt, "NativeToObject returns the nil object at %s for a value that is neither nil nor known to be a pointer: a nil slice or map in the data becomes nil — falsy in @if, an error in @each — instead of an empty array / object (truthy, iterable, rendering @else), which is what the empty literal and `[]T{}` are", badAt)
+		default:
+			s.OK(rule, key, m.Pos(fn.Pos()), "%d returns of the nil object, each under `val == nil` or under the Pointer kind", nNil)
+		}
+	}
 	// fall-through returns nil
 	last := false
 	for _, cf := range convFns {
